@@ -12,7 +12,10 @@
 (*   delete them at once; remove hands back a pair the caller must delete; get lends; the listings  *)
 (*   (keys, values, pairs) are new lists of copies owned by the caller.                             *)
 EXTENDS Integers, Sequences, FiniteSets, TLC, Json
-CONSTANTS H,              \* handles: small positive integers (texts "1", "2", ... in the harness)
+CONSTANTS H,              \* handles: small positive integers
+          Val,            \* [H -> value]: the text of each object; several handles may carry EQUAL values - the
+                          \* library addresses elements by value (remove/find take the first equal element), ownership
+                          \* is by identity, and the two must not be confused
           Kind,           \* "seq" or "map"
           Sorted,         \* seq kind: TRUE = vector classes (kept in ascending order), FALSE = list classes (append)
           Obs(_, _, _, _)
@@ -25,15 +28,25 @@ VARIABLES own,     \* [H -> {"none", "prog", "cont", "freed"}]   the ledger for 
           held     \* [pairs, lists, arrays, iters]: counts of library-made objects the program must delete
 vars == <<own, cont, order, keys, copy, held>>
 
-St(o, c, q, k, d, h) == [own |-> o, cont |-> c, order |-> q, keys |-> k, copy |-> d, held |-> h]
+\* the container's content is observed as VALUES (which of two equal objects sits where is the implementation's
+\* business); who owns which object is observed per handle, by identity
+ValSeq(q) == [i \in 1 .. Len(q) |-> Val[q[i]]]
+St(o, c, q, k, d, h) == [own |-> o, cont |-> c, order |-> ValSeq(q), keys |-> k, copy |-> d, held |-> h]
 Pre == St(own, cont, order, keys, copy, held)
 StepQ(op, args, ret, o, c, q, k, d, h) ==
     /\ own' = o /\ cont' = c /\ order' = q /\ keys' = k /\ copy' = d /\ held' = h
     /\ Obs(op, args, ret, St(o, c, q, k, d, h))
 Step(op, args, ret, o, c, k, d, h) == StepQ(op, args, ret, o, c, order, k, d, h)
-Without(q, h) == SelectSeq(q, LAMBDA x : x # h)
+\* remove(value): the FIRST element equal in value leaves the container (C: first equal).  If that is not the object the
+\* program called h, the two equal-valued handles swap labels - they are indistinguishable by value - so that afterwards
+\* h names the object that came back and the other label names the one still inside.
+FirstEq(q, v) == CHOOSE i \in 1 .. Len(q) : Val[q[i]] = v /\ \A j \in 1 .. (i - 1) : Val[q[j]] # v
+Without(q, h) == LET i == FirstEq(q, Val[h])
+                     f == q[i]
+                     rest == SubSeq(q, 1, i - 1) \o SubSeq(q, i + 1, Len(q))
+                 IN [k \in 1 .. Len(rest) |-> IF rest[k] = h THEN f ELSE rest[k]]
 RECURSIVE InsSorted(_, _)
-InsSorted(q, h) == IF q = <<>> THEN <<h>> ELSE IF h <= Head(q) THEN <<h>> \o q ELSE <<Head(q)>> \o InsSorted(Tail(q), h)
+InsSorted(q, h) == IF q = <<>> THEN <<h>> ELSE IF Val[h] <= Val[Head(q)] THEN <<h>> \o q ELSE <<Head(q)>> \o InsSorted(Tail(q), h)
 Put(q, h) == IF Sorted THEN InsSorted(q, h) ELSE Append(q, h)
 Seq_ == Kind = "seq"
 Map_ == Kind = "map"
@@ -50,24 +63,29 @@ OpDelete(h) == /\ own[h] = "prog" /\ Step("delete", <<h>>, TRUE, [own EXCEPT ![h
 (* seq kind *)
 OpGive(h)   == /\ Seq_ /\ Live /\ own[h] = "prog"
                /\ StepQ("give", <<h>>, TRUE, [own EXCEPT ![h] = "cont"], cont, Put(order, h), keys, copy, held)
-OpTakeBack(h) == /\ Seq_ /\ Live /\ own[h] = "cont"        \* remove(h): the same object comes back
-                 /\ StepQ("take_back", <<h>>, h, [own EXCEPT ![h] = "prog"], cont, Without(order, h), keys, copy, held)
+\* remove(value of h): ONE object equal to the probe comes back - that very object leaves the container and is the
+\* caller's again (the harness relabels equal-valued handles so that h names the object that actually came back)
+OpTakeBack(h) == /\ Seq_ /\ Live /\ own[h] = "cont"
+                 /\ StepQ("take_back", <<h>>, Val[h], [own EXCEPT ![h] = "prog"], cont, Without(order, h), keys, copy, held)
+\* insert_at at a position that normalises below zero is refused: the object stays the caller's
+OpGiveRefused(h) == /\ Seq_ /\ ~Sorted /\ Live /\ own[h] = "prog"
+                    /\ Step("give_refused", <<h>>, FALSE, own, cont, keys, copy, held)
 OpTakeFirst == /\ Seq_ /\ Live /\ order # <<>>              \* remove_at(0) / removal of the smallest: the first one
-               /\ StepQ("take_first", <<>>, Head(order), [own EXCEPT ![Head(order)] = "prog"], cont, Tail(order), keys, copy, held)
+               /\ StepQ("take_first", <<Head(order)>>, Val[Head(order)], [own EXCEPT ![Head(order)] = "prog"], cont, Tail(order), keys, copy, held)
 OpLend(h)   == /\ Seq_ /\ Live /\ own[h] = "cont"            \* find(h): borrowed, nothing changes hands
-               /\ Step("lend", <<h>>, h, own, cont, keys, copy, held)
+               /\ Step("lend", <<h>>, Val[h], own, cont, keys, copy, held)
 OpToArray   == /\ Seq_ /\ Live /\ held.arrays < Cap
-               /\ Step("to_array", <<>>, order, own, cont, keys, copy, Bump("arrays"))
+               /\ Step("to_array", <<>>, ValSeq(order), own, cont, keys, copy, Bump("arrays"))
 OpFreeArray == /\ held.arrays > 0 /\ Step("free_array", <<>>, TRUE, own, cont, keys, copy, Drop("arrays"))
 
 (* map kind: h doubles as key value and as value value; the caller's objects never change hands *)
 OpSet(k, v) == /\ Map_ /\ Live /\ own[k] = "prog" /\ own[v] = "prog"
-               /\ Step("set", <<k, v>>, k \in keys, own, cont, keys \cup {k}, copy, held)
+               /\ Step("set", <<k, v>>, Val[k] \in keys, own, cont, keys \cup {Val[k]}, copy, held)
 OpMapGet(k) == /\ Map_ /\ Live /\ own[k] = "prog"
-               /\ Step("map_get", <<k>>, k \in keys, own, cont, keys, copy, held)
+               /\ Step("map_get", <<k>>, Val[k] \in keys, own, cont, keys, copy, held)
 OpMapRemove(k) == /\ Map_ /\ Live /\ own[k] = "prog" /\ held.pairs < Cap
-                  /\ IF k \in keys THEN Step("map_remove", <<k>>, TRUE, own, cont, keys \ {k}, copy, Bump("pairs"))
-                                   ELSE Step("map_remove", <<k>>, FALSE, own, cont, keys, copy, held)
+                  /\ IF Val[k] \in keys THEN Step("map_remove", <<k>>, TRUE, own, cont, keys \ {Val[k]}, copy, Bump("pairs"))
+                                        ELSE Step("map_remove", <<k>>, FALSE, own, cont, keys, copy, held)
 OpDelPair   == /\ held.pairs > 0 /\ Step("del_pair", <<>>, TRUE, own, cont, keys, copy, Drop("pairs"))
 OpListing(w) == /\ Map_ /\ Live /\ held.lists < Cap          \* w in keys / values / pairs
                 /\ Step("listing", <<w>>, Cardinality(keys), own, cont, keys, copy, Bump("lists"))
@@ -86,7 +104,7 @@ OpRenew     == /\ cont = "deleted" /\ Step("renew", <<>>, TRUE, own, "live", {},
 
 Init == /\ own = [h \in H |-> "none"] /\ cont = "live" /\ order = <<>> /\ keys = {} /\ copy = "none"
         /\ held = [pairs |-> 0, lists |-> 0, arrays |-> 0, iters |-> 0]
-Next == \/ \E h \in H : OpCreate(h) \/ OpTouch(h) \/ OpDelete(h) \/ OpGive(h) \/ OpTakeBack(h) \/ OpLend(h)
+Next == \/ \E h \in H : OpCreate(h) \/ OpTouch(h) \/ OpDelete(h) \/ OpGive(h) \/ OpGiveRefused(h) \/ OpTakeBack(h) \/ OpLend(h)
                         \/ OpMapGet(h) \/ OpMapRemove(h)
         \/ \E k, v \in H : OpSet(k, v)
         \/ \E w \in {"keys", "values", "pairs"} : OpListing(w)
@@ -95,7 +113,7 @@ Next == \/ \E h \in H : OpCreate(h) \/ OpTouch(h) \/ OpDelete(h) \/ OpGive(h) \/
 Spec == Init /\ [][Next]_vars
 
 TypeOK == /\ own \in [H -> {"none", "prog", "cont", "freed"}] /\ cont \in {"live", "deleted"}
-          /\ keys \subseteq H /\ copy \in {"none", "live"}
+          /\ keys \subseteq {Val[h] : h \in H} /\ copy \in {"none", "live"}
           /\ {order[i] : i \in 1 .. Len(order)} = {h \in H : own[h] = "cont"} /\ Len(order) = Cardinality({h \in H : own[h] = "cont"})
           /\ held \in [pairs : 0 .. Cap, lists : 0 .. Cap, arrays : 0 .. Cap, iters : 0 .. 1]
 \* a freed object never comes back and is never owned again (nothing is released twice)
